@@ -684,6 +684,61 @@ def carrier(b, rnd):
     return fmt, rate, spl, std, f0, f1, list(sids[:b["c0"] + b["c1"]])
 
 
+def admission(ctx, drv, geo, rnd, bpp):
+    """Every geometry count[0], count[1], interlaced (valid or not): does the library create a decoder for it?  A geometry the
+    specification rejects (SlicerImage!Valid) and the library admits is a violation iff the specification's scan line loop leaves
+    the image for it (far > rows, Gen_SlicerImage_any); the noise image decoded afterwards on a guard page shows the access."""
+    jobs = []
+    for (c0, c1, il), g in sorted(geo.items()):
+        for api in ("new", "old"):
+            car = carrier(dict(c0=c0, c1=c1), rnd)
+            if car is None:
+                continue
+            (fmt, rate, spl, std, f0, f1, sids) = car
+            allid = 0
+            for x in sids:
+                allid |= x
+            cmds = ["I %s %d %d %d %d %d %d %d %d %d 1" % (api, fmt, rate, spl * bpp[fmt], std, f0 if c0 else 0, c0, f1 if c1 else 0, c1, il),
+                    "S add %x 0" % allid, "G 0 %d" % (ctx.seed + len(jobs))]
+            jobs.append(dict(g=g, api=api, cmds=cmds, where="%s raw decoder, count %d+%d%s, fmt %d %d Hz" % (
+                api, c0, c1, " interlaced" if il else "", fmt, rate)))
+    res = core.run_seq_driver([drv], [j["cmds"] for j in jobs], env=env(), timeout=600)
+    n_adm = n_rej = odd = 0
+    for j, r in zip(jobs, res):
+        g = j["g"]
+        rp = dict(kind="admission", cmds=j["cmds"], where=j["where"], expected=dict(valid=g["valid"], rows=g["rows"], far=g["far"]))
+        if r.get("skipped"):
+            continue
+        if r["stderr"]:
+            report_san(ctx, r["stderr"], replay=rp)
+        if len(r["lines"]) != len(j["cmds"]):
+            raise tlc.ToolFailure("driver stopped in %s: %s" % (j["cmds"], r["stderr"][-1500:]))
+        admitted = bool(r["lines"][0].get("ok")) and bool(r["lines"][1].get("set"))
+        a = r["lines"][2]
+        ctx.count_case(["admission", j["api"], g["c0"], g["c1"], g["il"]], nontrivial=not g["valid"])
+        if admitted and not g["valid"]:
+            if g["far"] > g["rows"]:
+                ctx.violate("replay", "admit:leaves-image:%s" % j["api"],
+                            "%s: the library creates a decoder for this geometry; SlicerImage rejects it (Valid) because the scan line loop hands row %d of a %d row "
+                            "image to the slicers (RowInside, MC_SlicerImage_any). Decoding a noise image of exactly %d rows: %s" % (
+                                j["where"], g["far"] - 1, g["rows"], g["rows"],
+                                ("%s %d byte(s) behind the image" % ("store" if a.get("write") else "read", a.get("off", -1) + 1)) if a.get("fault") else "no access trapped"), rp)
+                continue
+            odd += 1            # admitted although the coded rule says no, but the loop stays inside: no C05 matter
+        elif a.get("fault"):
+            ctx.violate("replay", "%s:admission-%s" % ("overwrite" if a["write"] else "diverge:unpredicted-read", j["api"]),
+                        "%s: %s %d byte(s) behind the %s on a noise image" % (j["where"], "store" if a["write"] else "read", a["off"] + 1,
+                                                                               "output array" if a["write"] else "image"), rp)
+            continue
+        if admitted:
+            n_adm += 1
+        else:
+            n_rej += 1
+        if bool(admitted) == bool(g["valid"]):
+            ctx.validated()
+    ctx.cov["admission"] = dict(geometries=len(geo), probes=len(jobs), admitted=n_adm, rejected=n_rej, admitted_but_harmless=odd)
+
+
 def image_model(ctx, drv, table, quick):
     tier = "q" if quick else "t"
     mc = tlc.run("SlicerImage", "MC_SlicerImage_" + tier, timeout=600, workers=4, heap="2g")
@@ -691,10 +746,24 @@ def image_model(ctx, drv, table, quick):
     if mc.violation:
         ctx.violate("mc", "mc:%s:%s" % (mc.violation["kind"], mc.violation["name"]), mc.violation["text"][:3000])
         return
+    # the decoder without the admission rule must leave the image in the model (the rule is load bearing)
+    anymc = tlc.run("SlicerImage", "MC_SlicerImage_any", timeout=300, workers=2, heap="1g")
+    if not anymc.violation or anymc.violation.get("name") != "RowInside":
+        raise tlc.ToolFailure("MC_SlicerImage_any no longer finds the RowInside violation of a decoder that admits every geometry")
+    ctx.add_mc(anymc, "MC_SlicerImage_any (variant the model must reject: RowInside)")
+    geo_run = tlc.run("Gen_SlicerImage", "Gen_SlicerImage_any", timeout=300, workers=2, heap="1g", collect_tr=True)
+    ctx.add_mc(geo_run, "GEN SlicerImage geometries (Rule = any)")
+    geo = {(g["c0"], g["c1"], g["il"]): g for g in geo_run.tr}
+    if not geo or not any(g["far"] > g["rows"] for g in geo.values()):
+        raise tlc.ToolFailure("no geometry table from Gen_SlicerImage_any")
     gen = tlc.run("Gen_SlicerImage", "Gen_SlicerImage_" + tier, timeout=600, workers=4, heap="2g", collect_tr=True)
     ctx.add_mc(gen, "GEN SlicerImage")
     if not gen.tr:
         raise tlc.ToolFailure("no behaviour generated from SlicerImage")
+    rejected = {(b["c0"], b["c1"], b["il"]) for b in gen.tr if not b["ok"]}
+    if not rejected or any(geo.get(k, dict(valid=0))["valid"] for k in rejected):
+        raise tlc.ToolFailure("SlicerImage: the generator and the geometry table disagree about admission")
+    gen.tr = [b for b in gen.tr if b["ok"]]
     svc = {s["id"]: s for s in table["services"]}
     bpp = {f["fmt"]: f["bpp"] for f in table["formats"]}
     rnd = random.Random(ctx.seed)
@@ -730,6 +799,7 @@ def image_model(ctx, drv, table, quick):
                                  api, "+".join(sorted({NAMES.get(x, "%x" % x) for x in sids})), fmt, rate, b["c0"], b["c1"],
                                  " interlaced" if b["il"] else "", b["maxl"], b["sig"])))
     ctx.cov["image_behaviours_not_replayable"] = skipped
+    admission(ctx, drv, geo, rnd, bpp)
     chunks = [jobs[i::NPROC] for i in range(NPROC)]
 
     def work(chunk):
